@@ -288,7 +288,7 @@ static Case gen_case(uint64_t h)
   c.err_missing = r.chance(0.3);
   // axis incl. poles and +-x, +-y
   int as = r.range(0, 9);
-  if (as == 0) { c.theta = 0; c.phi = r.uniform(0, 2 * M_PI); } else if (as == 1) { c.theta = M_PI; c.phi = 0; }
+  if (as == 0) { c.theta = 0; c.phi = r.uniform(0, 2 * M_PI); } else if (as == 1) { c.theta = M_PI; c.phi = (c.ep == 0 || c.ep == 2 || c.ep == 4) ? r.uniform(-M_PI, M_PI) : 0; } // -Z pole: with the angle entry points the longitude still orients the rectangular window (the vector entry points cannot express it)
   else if (as == 2) { c.theta = M_PI / 2; c.phi = (M_PI / 2) * r.range(0, 3); }
   else { c.theta = std::acos(r.uniform(-1, 1)); c.phi = r.uniform(-M_PI, M_PI); }
   c.axis_scale = (c.ep == 1 || c.ep == 3) ? std::pow(10.0, r.uniform(-3, 3)) : 1.0;
